@@ -220,6 +220,9 @@ func eqValue(a, b Value) *Term {
 		return And(Eq(x.Base, y.Base), Eq(x.Len, y.Len))
 	case IfaceV:
 		y := b.(IfaceV)
+		if (x.Tag.Op == "int" && x.Tag.Int == 0) || (y.Tag.Op == "int" && y.Tag.Int == 0) {
+			return Eq(x.Tag, y.Tag) // comparison with the nil interface
+		}
 		return And(Eq(x.Tag, y.Tag), Eq(x.Val, y.Val))
 	case StructV:
 		y := b.(StructV)
